@@ -374,6 +374,8 @@ class Planner:
                 key = '%s@%s' % (tag, p)
                 if key not in script:
                     script[key] = 'false'
+        if 'user_abort' in kinds and fr.random() < 0.15:
+            op['keep_exc'] = True           # if the call fails, the caller holds on to the exception (a list of errors)
         if script:
             op['script'] = script
             if any(v in ('abort', 'abort_base') for v in script.values()) and fr.random() < 0.5:
@@ -411,7 +413,7 @@ class Planner:
         wr = self.wr
         m = self.infos[op['mod']]
         new = {k: v for k, v in op.items() if k in ('op', 'mod', 'entry', 'text', 'pos', 'full')}
-        what = wr.choice(['pos', 'pos', 'full', 'entry'])
+        what = wr.choice(['pos', 'pos', 'full', 'entry', 'same'])       # 'same': the very same call once more
         n = text_len(op)
         if what == 'pos' and n > 0:
             new['pos'] = wr.choice([p for p in (0, 1, 2, 3, n // 2, n - 1) if 0 <= p < n and p != op['pos']] or [0])
@@ -419,6 +421,8 @@ class Planner:
             it = wr.choice(m.own)
             e = ('class:' if it['k'] == 'class' else 'rule:') + it['name']
             new['entry'] = e if e != op['entry'] else 'parse'
+        elif what == 'same':
+            pass
         else:
             new['full'] = not op['full']
         if wr.random() < 0.5:
